@@ -10,12 +10,12 @@ import (
 type Mode int
 
 const (
-	ModeRandom Mode = iota
-	ModeZero        // Go zero value (all nil)
-	ModeEmpty       // every container non-nil and empty, pointers non-nil
-	ModeFull        // every container non-nil with >= 2 elements, pointers non-nil
-	ModeNilDeep     // containers present at the top, nil below
-	ModeBig         // like ModeFull, but maps at depth <= 1 hold about 70 entries
+	ModeRandom  Mode = iota
+	ModeZero         // Go zero value (all nil)
+	ModeEmpty        // every container non-nil and empty, pointers non-nil
+	ModeFull         // every container non-nil with >= 2 elements, pointers non-nil
+	ModeNilDeep      // containers present at the top, nil below
+	ModeBig          // like ModeFull, but maps at depth <= 1 hold about 70 entries
 )
 
 // Strings is the boundary-biased string pool: quotes, backquotes, newlines, invalid UTF-8,
@@ -31,9 +31,9 @@ var floats32 = []float64{0, math.Copysign(0, -1), 1, -1, 0.5, 2.5, -2.5, float64
 type Gen struct {
 	R        *rand.Rand
 	MaxDepth int
-	NoShare  bool                            // never reuse pointers inside one value (tree-shaped values)
-	NaNKeys  bool                            // float map keys may be NaN (only for prior destination states: values under comparison are NaN-free)
-	bigMaps  bool                            // maps near the top get ~70 entries (set by ModeBig)
+	NoShare  bool                             // never reuse pointers inside one value (tree-shaped values)
+	NaNKeys  bool                             // float map keys may be NaN (only for prior destination states: values under comparison are NaN-free)
+	bigMaps  bool                             // maps near the top get ~70 entries (set by ModeBig)
 	shared   map[reflect.Type][]reflect.Value // pointers created in the current value, for DAG sharing
 }
 
